@@ -1,14 +1,151 @@
 /-
-C11 — property theorems (proofs of the helper lemmas are in Proofs*.lean).
+C11 — property theorems.  Vocabulary in Spec.lean, proofs in Proofs*.lean.
+The model (Model.lean) is of /repo's code AFTER the three `fix:` commits of this property; the write order before the
+first fix is refuted by `old_write_order_not_crash_safe`.
 -/
-import YouVerif.C11.Proofs
+import YouVerif.C11.Proofs3
 namespace YouVerif.C11
 
 /-- The write list the model reports for an import is exactly what changed the database: replaying it on the start
-    database gives the end database.  (This is what makes "a crash = a prefix of the write list" meaningful; the
-    harness checks the list itself against the recorded Put/Delete/Batch.Write sequence of the real code.) -/
+    database gives the end database, for every engine, chain and start node.  (This makes "a crash = a prefix of the
+    write list" meaningful; the harness checks the list against the recorded Put/Delete/Batch.Write sequence.) -/
 theorem writes_sound (W : World) (nd : Node) (chain : List Nat) :
     (insertChain W nd chain).nd.db = nd.db.applyAll (insertChain W nd chain).ws :=
   insertChain_sound W nd chain
+
+/-- Writes that only add block data, state or the head-header marker (everything WriteBlockWithoutState, the first
+    half of WriteBlockWithState and loadLastState write) keep a consistent chain consistent, whatever they add. -/
+theorem data_write_consistent (W : World) (db : DB) (w : Wr) (hw : DataWrite w) (head : Nat)
+    (h : Consistent W db head) : Consistent W (db.apply w) head ∧ (db.apply w).headBlk = db.headBlk :=
+  ⟨consistent_apply_data W db w hw head h, (data_fields db w hw).2.2.1⟩
+
+/-- import_inv, head-extending case: WriteBlockWithState of a block whose parent is the head moves a consistent chain
+    to a consistent chain whose head is the new block, and persists it as head. -/
+theorem import_inv_partial (W : World) (nd : Node) (id : Nat)
+    (hp : (W.blk id).parent = nd.cur) (hn : (W.blk id).num = (W.blk nd.cur).num + 1)
+    (h : Consistent W nd.db nd.cur) :
+    Consistent W (writeBlockWithState W nd id).nd.db id ∧ (writeBlockWithState W nd id).nd.db.headBlk = some id ∧
+      (writeBlockWithState W nd id).nd.cur = id :=
+  ⟨(wbs_extend_consistent W nd id hp hn h).1, (wbs_extend_consistent W nd id hp hn h).2, (wbs_extend_db W nd id hp).choose_spec.2.2.1⟩
+
+/-- crash_consistent, head-extending case: after ANY number k of primitive writes of such an import the database
+    satisfies the persistent invariant (its head block heads a consistent chain, head state available, lookups sound). -/
+theorem crash_consistent_partial (W : World) (nd : Node) (id : Nat)
+    (hp : (W.blk id).parent = nd.cur) (hn : (W.blk id).num = (W.blk nd.cur).num + 1)
+    (h : Consistent W nd.db nd.cur) (hh : nd.db.headBlk = some nd.cur) :
+    ∀ k, DBInv W (nd.db.applyAll ((writeBlockWithState W nd id).ws.take k)) :=
+  wbs_extend_safe W nd id hp hn h hh
+
+/-- crash prefixes compose: if every prefix of `a` is safe from `db` and every prefix of `b` is safe from the database
+    after `a`, every prefix of `a ++ b` is safe. -/
+theorem crash_prefixes_compose (W : World) (db : DB) (a b : List Wr) (ha : SafeWrites W db a)
+    (hb : SafeWrites W (db.applyAll a) b) : SafeWrites W db (a ++ b) :=
+  safe_append W db a b ha hb
+
+/-- Restart on a database that satisfies the persistent invariant succeeds without repair: the recovered head is the
+    persisted head block, the only write is the head-header marker, and the chain is consistent. -/
+theorem restart_on_consistent (W : World) (db : DB) (hg : (W.blk genesisId).num = 0) (head : Nat)
+    (hh : db.headBlk = some head) (hc : Consistent W db head) :
+    ∃ r, recover W db = some r ∧ r.nd.cur = head ∧ r.ws = [Wr.headHdr head] ∧ Consistent W r.nd.db head ∧
+      r.nd.db.headBlk = some head :=
+  recover_of_dbinv W db hg head hh hc
+
+/-- invalid_never_canonical, the block being imported: insertChain's loop writes a block with state only after
+    execution and state validation succeeded on the parent's available state, and ValidateBody = ok implies a correct
+    transaction root and a stored parent with state.  (Blocks that become canonical as ANCESTORS in a reorg are not
+    covered: see `invalid_never_canonical_statement`.) -/
+theorem invalid_never_head_partial (W : World) (nd : Node) (prev : Option Nat) (id : Nat) (r : Res)
+    (h : processBlock W nd prev id = some r) (hw : r.ws ≠ []) (hv : validateBody W nd.db id = .ok) :
+    (W.blk id).execOK = true ∧ (W.blk id).txRootOK = true ∧ r = writeBlockWithState W nd id :=
+  ⟨(processBlock_writes W nd prev id r h hw).1, (validateBody_ok W nd.db id hv).1, (processBlock_writes W nd prev id r h hw).2.2⟩
+
+-- ---- full statements not proved in the time available (type-checked; sampled by the correspondence + oracle) --------
+
+/-- reachable nodes: started on the committed genesis, then any imports and restarts -/
+inductive Reach (W : World) : Node → Prop where
+  | genesis : Reach W { db := DB.genesis W, cur := genesisId, fut := [] }
+  | insert (nd : Node) (chain : List Nat) : Reach W nd → Reach W (insertChain W nd chain).nd
+  | restart (nd : Node) (k : Nat) (chain : List Nat) (r : Res) : Reach W nd →
+      recover W (nd.db.applyAll ((insertChain W nd chain).ws.take k)) = some r → Reach W r.nd
+
+/-- FULL import_inv: every reachable node holds a consistent chain.  Missing: the reorg case of the batch (the walk
+    `reorgChains` returns exactly the two branches below the common ancestor) and the induction through insertChain's
+    dispatch. -/
+def import_inv_statement : Prop := ∀ W nd, (W.blk genesisId).num = 0 → Reach W nd → Consistent W nd.db nd.cur
+
+/-- FULL crash_consistent: from a reachable node, every crash prefix of every import restarts, and restarts consistent.
+    Missing: as import_inv_statement (each batch of a run is a consistent switch). -/
+def crash_consistent_statement : Prop := ∀ W nd chain k, (W.blk genesisId).num = 0 → Reach W nd →
+  ∃ r, recover W (nd.db.applyAll ((insertChain W nd chain).ws.take k)) = some r ∧ Consistent W r.nd.db r.nd.cur
+
+/-- FULL not_wedged: after a crash at any prefix, re-importing the interrupted blocks and one further valid child of the
+    uncrashed head gives the head of the node that never crashed. -/
+def not_wedged_statement : Prop := ∀ W nd chain k c r, (W.blk genesisId).num = 0 → Reach W nd →
+  recover W (nd.db.applyAll ((insertChain W nd chain).ws.take k)) = some r →
+  Valid W c → (W.blk c).parent = (insertChain W nd chain).nd.cur →
+  (insertChain W (insertChain W r.nd chain).nd [c]).nd.cur = (insertChain W (insertChain W nd chain).nd [c]).nd.cur
+
+/-- FULL invalid_never_canonical.  NOT expected to be provable as it stands: a side block stored without state whose
+    claimed state root is available (an empty block, or a block claiming another block's root) is never validated and
+    becomes canonical as an ancestor in a later reorg (upstream's "ghost state" family); kept as the statement the
+    harness oracle evaluates on every generated case. -/
+def invalid_never_canonical_statement : Prop := ∀ W nd n h, (W.blk genesisId).num = 0 → Reach W nd →
+  0 < n → n ≤ (W.blk nd.cur).num → nd.db.canon n = some h → Valid W h
+
+-- ---- the write order before the fix is not crash safe -------------------------------------------------------------------
+
+/-- trunk 0-1-2-3, fork 4 from the genesis -/
+def cexWorld : World :=
+  { blk := fun id => match id with
+      | 0 => { parent := 0, num := 0, root := 0, txs := [], txRootOK := true, execOK := true, tclass := 0, older := false }
+      | 1 => { parent := 0, num := 1, root := 1, txs := [0], txRootOK := true, execOK := true, tclass := 0, older := false }
+      | 2 => { parent := 1, num := 2, root := 2, txs := [1], txRootOK := true, execOK := true, tclass := 0, older := false }
+      | 3 => { parent := 2, num := 3, root := 3, txs := [], txRootOK := true, execOK := true, tclass := 0, older := false }
+      | 4 => { parent := 0, num := 1, root := 4, txs := [0, 2], txRootOK := true, execOK := true, tclass := 0, older := false }
+      | _ => Blk.unknown,
+    strict := false }
+
+/-- head 3 on the trunk, block 4 stored with state: the instant before reorg's first `insert` -/
+def cexBefore : DB :=
+  { body := fun x => x ≤ 4, hnum := fun x => x ≤ 4, hdr := fun x => x ≤ 4, st := fun r => r ≤ 4,
+    canon := fun n => if n ≤ 3 then some n else none, headBlk := some 3, headHdr := some 3,
+    look := fun t => if t = 0 then some (1, 1, 0) else if t = 1 then some (2, 2, 0) else none }
+
+/-- The pre-fix `insert` issued three separate Puts (head header, canonical hash, head block).  After the first two
+    (a Put is a one-operation batch) the persisted head is still 3 but canonical block 1 is the fork block 4:
+    no head makes this database consistent.  Replayed on the pre-fix code by corpus/C11/reorg-crash-index.replay. -/
+theorem old_write_order_not_crash_safe :
+    ¬ DBInv cexWorld (cexBefore.applyAll [Wr.batch [BOp.headHdr 4], Wr.batch [BOp.canon 1 4]]) := by
+  rintro ⟨head, hh, hc⟩
+  have h3 : head = 3 := by
+    simp [DB.applyAll, DB.apply, DB.applyOps, DB.applyOp, cexBefore] at hh
+    exact hh.symm
+  subst h3
+  obtain ⟨x, h1, _, _, h4⟩ := hc.index.chain 2 (by simp [cexWorld])
+  have hx : x = 2 := by
+    simp [DB.applyAll, DB.apply, DB.applyOps, DB.applyOp, cexBefore, upd] at h1
+    exact h1.symm
+  subst hx
+  have := h4 (by decide)
+  simp [DB.applyAll, DB.apply, DB.applyOps, DB.applyOp, cexBefore, upd, cexWorld] at this
+
+-- ---- non-vacuity ---------------------------------------------------------------------------------------------------------
+
+/-- the hypotheses of import_inv_partial / crash_consistent_partial / restart_on_consistent are satisfiable: the committed
+    genesis database is consistent, and block 1 of `cexWorld` extends it -/
+theorem genesis_consistent (W : World) (hg : (W.blk genesisId).num = 0) :
+    Consistent W (DB.genesis W) genesisId ∧ (DB.genesis W).headBlk = some genesisId := by
+  refine ⟨⟨⟨by simp [Stored, DB.genesis], by simp [DB.genesis, hg], ?_, by simp [DB.genesis]⟩, by simp [DB.genesis], ?_⟩, rfl⟩
+  · intro n hn
+    have : n = 0 := by omega
+    subst this
+    exact ⟨genesisId, by simp [DB.genesis], by simp [Stored, DB.genesis], hg, fun h => absurd h (by decide)⟩
+  · intro t h n i ht
+    simp [DB.genesis] at ht
+
+example : (cexWorld.blk 1).parent = genesisId ∧ (cexWorld.blk 1).num = (cexWorld.blk genesisId).num + 1 := by decide
+
+/-- test on literals: the model imports the trunk and then reorganises to the fork in one batch -/
+example : ((insertChain cexWorld { db := DB.genesis cexWorld, cur := 0, fut := [] } [1, 2, 3]).nd.cur = 3) := by decide
 
 end YouVerif.C11
